@@ -1179,15 +1179,15 @@ Definition inplace_guard (w : world) (o : op) : bool :=
   | _ => true
   end.
 
-Lemma slice_cache_fix (w w' : world) (k : key) t t' xi xs :
+Lemma slice_cache_fix (v : variant) (w w' : world) (k : key) t t' xi xs :
   cache_ok w t = true ->
   key_positions (nframes t) k = inr (xi, xs) ->
   frames w' t' = sel dfr (frames w t) xi ->
-  traces_sliced v_fix k w (tr t) (tr t') ->
+  slice_indexes_traces v = true -> traces_sliced v k w (tr t) (tr t') ->
   cache_ok w' t' = true.
 Proof.
-  intros Hc Kx Hf Ht. unfold traces_sliced in Ht. destruct (tr t) as [c|] eqn:Etr.
-  - cbn [slice_indexes_traces v_fix] in Ht.
+  intros Hc Kx Hf Hs Ht. unfold traces_sliced in Ht. destruct (tr t) as [c|] eqn:Etr.
+  - rewrite Hs in Ht.
     destruct (cache_ok_inv _ _ _ Etr Hc) as [Hv Hcen].
     assert (Hl : length (a_val c) = nframes t) by (rewrite Hv; apply length_frames).
     rewrite Hl, Kx in Ht. destruct Ht as [c' [E1 [E2 _]]].
@@ -1204,20 +1204,66 @@ Ltac upd_tac :=
   | Hwf : wf ?w, Hc : cinv ?w |- cinv (put _ ?r ?t2) => apply (cinv_of_upd w _ r t2 Hwf Hc)
   end.
 
-Lemma step_cinv w o w' r :
-  wf w -> cinv w -> inplace_guard w o = true -> step v_fix w o = (w', r) -> cinv w'.
+Lemma Forall_removelast {A} (P : A -> Prop) l : Forall P l -> Forall P (removelast l).
 Proof.
-  intros Hwf Hc Hg H. destruct o; cbn [step] in H.
+  induction l as [|x r IH]; intros H; cbn; [constructor|]. inversion H; subst.
+  destruct r; [constructor|]. constructor; auto.
+Qed.
+
+Lemma Forall_jparts {A} (P : A -> Prop) plan (ls : list (list A)) :
+  (forall l, In l ls -> Forall P l) -> Forall P (jparts plan ls).
+Proof.
+  unfold jparts. revert ls; induction plan as [|d pr IH]; intros [|l lr] H; cbn; try constructor.
+  apply Forall_app. split.
+  - destruct d; cbn; [apply Forall_removelast|]; apply H; left; reflexivity.
+  - apply IH. intros l0 Hin. apply H. right. exact Hin.
+Qed.
+
+(* a joined trajectory that inherits the operands' caches (after the trimming) has a consistent cache *)
+Lemma join_cache_ok v w t others dis w' t' plan :
+  slice_indexes_traces v = true -> (forall o, In o (t :: others) -> cache_ok w o = true) ->
+  join_facts v w t others dis w' t' plan -> cache_ok w' t' = true.
+Proof.
+  intros Hs Hall [F1 [_ [_ [F4 [_ [_ [_ [_ [Htr _]]]]]]]]].
+  unfold join_traces in Htr.
+  destruct (join_keeps_traces v && forallb (fun o => match tr o with Some _ => true | None => false end) (t :: others)) eqn:E;
+    [|apply cache_ok_none; exact Htr].
+  rewrite F1 in Htr. destruct Htr as [c [Hc Hv]].
+  apply andb_true_iff in E. destruct E as [_ Ehas]. rewrite forallb_forall in Ehas.
+  assert (Hp : map (fun d => d && slice_indexes_traces v) plan = plan).
+  { rewrite Hs. rewrite <- (map_id plan) at 2. apply map_ext. intros d. apply andb_true_r. }
+  assert (Hm : map (fun o => oval (tr o)) (t :: others) = map (frames w) (t :: others)).
+  { apply map_ext_in. intros o Hin. specialize (Ehas o Hin). specialize (Hall o Hin).
+    destruct (tr o) as [co|] eqn:Eo; [|discriminate]. cbn [oval]. exact (proj1 (cache_ok_inv _ _ _ Eo Hall)). }
+  rewrite Hp, Hm in Hv.
+  apply (cache_ok_self w' t' c (jparts plan (map (frames w) (t :: others))) Hc Hv F4).
+  apply Forall_jparts. intros l Hin. apply in_map_iff in Hin. destruct Hin as [o [<- Hin]].
+  specialize (Ehas o Hin). specialize (Hall o Hin).
+  destruct (tr o) as [co|] eqn:Eo; [|discriminate]. exact (proj2 (cache_ok_inv _ _ _ Eo Hall)).
+Qed.
+
+Lemma step_cinv v w o w' r :
+  slice_indexes_traces v = true -> aslice_inplace_resets v = true ->
+  wf w -> cinv w -> inplace_guard w o = true -> step v w o = (w', r) -> cinv w'.
+Proof.
+  intros Hs1 Hs2 Hwf Hc Hg H. destruct o; cbn [step] in H.
   - (* slice *) destruct r as [|e]; [|apply slice_err in H; subst; auto].
     destruct (nth_error (trajs w) r0) as [t|] eqn:Hr; [|unfold do_slice in H; rewrite Hr in H; discriminate].
     destruct (slice_ok _ _ _ _ _ _ _ Hwf Hr H) as [t' [xi [xs [Kx [Ht [He [Hf [_ [_ [_ [_ [_ [_ [_ [Htr _]]]]]]]]]]]]]]].
     eapply cinv_of_new; eauto. eapply slice_cache_fix; eauto. eapply cinv_lookup; eauto.
   - (* join *) destruct r as [|e]; [|apply join_err in H; subst; auto].
-    join_facts_tac H.
-    eapply cinv_of_new; eauto. apply cache_ok_none; auto.
+    fold (step v w (OJoin r0 others check_top dis)) in H.
+    destruct (join_step_full _ _ _ _ _ _ _ H) as [t [os [t' [plan [Hr [Ho JF]]]]]].
+    pose proof JF as [_ [Ht [He _]]].
+    eapply cinv_of_new; eauto. eapply join_cache_ok; eauto.
+    intros o Hin. unfold cinv in Hc. rewrite Forall_forall in Hc. apply Hc.
+    destruct Hin as [<-|Hin]; [eapply nth_error_In; eauto|eapply get_all_In; eauto].
   - (* md.join *) destruct r as [|e]; [|apply mdjoin_err in H; subst; auto].
-    join_facts_tac H.
-    eapply cinv_of_new; eauto. apply cache_ok_none; auto.
+    fold (step v w (OMdJoin rs dis)) in H.
+    destruct (mdjoin_step_full _ _ _ _ _ H) as [t [o [rest [t' [plan [Ho JF]]]]]].
+    pose proof JF as [_ [Ht [He _]]].
+    eapply cinv_of_new; eauto. eapply join_cache_ok; eauto.
+    intros o0 Hin. unfold cinv in Hc. rewrite Forall_forall in Hc. apply Hc. eapply get_all_In; eauto.
   - (* stack *) destruct r as [|e]; [|apply stack_err in H; subst; auto].
     destruct (nth_error (trajs w) r0) as [t|] eqn:Hr; [|unfold do_stack in H; rewrite Hr in H; discriminate].
     destruct (nth_error (trajs w) r') as [o|] eqn:Hr'; [|unfold do_stack in H; rewrite Hr, Hr' in H; discriminate].
@@ -1227,7 +1273,7 @@ Proof.
     destruct (nth_error (trajs w) r0) as [t|] eqn:Hr; [|unfold do_atom_slice in H; rewrite Hr in H; discriminate].
     destruct inplace.
     + destruct (atom_slice_inplace_ok _ _ _ _ _ _ Hwf Hr H) as [t' [ni [_ [Ht [He [_ [_ [_ [_ [_ [_ [Htr _]]]]]]]]]]]].
-      eapply cinv_of_upd; eauto. apply cache_ok_none; auto.
+      rewrite Hs2 in Htr. eapply cinv_of_upd; eauto. apply cache_ok_none; auto.
     + destruct (atom_slice_new_ok _ _ _ _ _ _ Hwf Hr H) as [t' [ni [_ [Ht [He [_ [_ [_ [_ [_ [Htr _]]]]]]]]]]].
       eapply cinv_of_new; eauto. apply cache_ok_none; auto.
   - (* remove_solvent *) destruct r as [|e]; [|apply remove_solvent_err in H; subst; auto].
@@ -1235,7 +1281,7 @@ Proof.
     destruct (nth_error (trajs w) r0) as [t|] eqn:Hr; [|discriminate].
     destruct inplace.
     + destruct (atom_slice_inplace_ok _ _ _ _ _ _ Hwf Hr H) as [t' [ni [_ [Ht [He [_ [_ [_ [_ [_ [_ [Htr _]]]]]]]]]]]].
-      eapply cinv_of_upd; eauto. apply cache_ok_none; auto.
+      rewrite Hs2 in Htr. eapply cinv_of_upd; eauto. apply cache_ok_none; auto.
     + destruct (atom_slice_new_ok _ _ _ _ _ _ Hwf Hr H) as [t' [ni [_ [Ht [He [_ [_ [_ [_ [_ [Htr _]]]]]]]]]]].
       eapply cinv_of_new; eauto. apply cache_ok_none; auto.
   - (* center *) destruct r as [|e]; [|apply center_err in H; subst; auto].
@@ -1394,15 +1440,20 @@ Fixpoint guarded (g : world -> op -> bool) (v : variant) (w : world) (ops : list
   | o :: rest => g w o && guarded g v (fst (step v w o)) rest
   end.
 
-Lemma run_cinv ops : forall w, wf w -> cinv w -> guarded inplace_guard v_fix w ops = true ->
-  cinv (fst (run v_fix w ops)).
+Lemma run_cinv_gen v ops : slice_indexes_traces v = true -> aslice_inplace_resets v = true ->
+  forall w, wf w -> cinv w -> guarded inplace_guard v w ops = true -> cinv (fst (run v w ops)).
 Proof.
+  intros Hs1 Hs2.
   induction ops as [|o rest IH]; intros w Hw Hc Hg; cbn [run]; [exact Hc|].
   cbn [guarded] in Hg. apply andb_true_iff in Hg. destruct Hg as [G1 G2].
-  destruct (step v_fix w o) as [w1 x] eqn:S. cbn [fst] in G2.
-  specialize (IH w1 (step_wf _ _ _ _ _ Hw S) (step_cinv _ _ _ _ Hw Hc G1 S) G2).
-  destruct (run v_fix w1 rest) as [w2 xs]. exact IH.
+  destruct (step v w o) as [w1 x] eqn:S. cbn [fst] in G2.
+  specialize (IH w1 (step_wf _ _ _ _ _ Hw S) (step_cinv _ _ _ _ _ Hs1 Hs2 Hw Hc G1 S) G2).
+  destruct (run v w1 rest) as [w2 xs]. exact IH.
 Qed.
+
+Lemma run_cinv ops : forall w, wf w -> cinv w -> guarded inplace_guard v_fix w ops = true ->
+  cinv (fst (run v_fix w ops)).
+Proof. exact (run_cinv_gen v_fix ops eq_refl eq_refl). Qed.
 
 (* ------------------------------------------------------------------ equal lengths of all per-frame fields *)
 Definition lens (w : world) : Prop := Forall (fun t => lengths_ok t = true) (trajs w).
@@ -1790,3 +1841,30 @@ Proof. intros H. apply run_cinv; auto using init_wf, init_cinv. Qed.
 Lemma run_lens_init v sps ops :
   guarded xyz_guard v (init_world sps) ops = true -> lens (fst (run v (init_world sps) ops)).
 Proof. intros H. apply run_lens; auto using init_wf, init_lens. Qed.
+
+(* ------------------------------------------------------------------ joins that trim overlapping frames *)
+Definition v_keep := mkVar true true true.
+
+Lemma run_cinv_keep_init sps ops :
+  guarded inplace_guard v_keep (init_world sps) ops = true -> cinv (fst (run v_keep (init_world sps) ops)).
+Proof. intros H. apply (run_cinv_gen v_keep ops eq_refl eq_refl); auto using init_wf, init_cinv. Qed.
+
+(* consecutive chunks of one centred run sharing a frame: t[0:3] and t[2:4]; join(discard_overlapping_frames=True)
+   drops the duplicated frame: 4 frames, and (cache-keeping variant) a 4-entry consistent cache *)
+Definition ops_overlap : list op :=
+  [OCenter 0 false; OSlice 0 (KSlice (Some 0%Z) (Some 3%Z) None) true; OSlice 0 (KSlice (Some 2%Z) (Some 4%Z) None) true;
+   OJoin 1 [2] true true; OJoin 1 [2] true false; OMdJoin [1; 2; 0] true].
+Definition reg_frames_cache (w : world) (r : nat) : option (nat * option nat) :=
+  match nth_error (trajs w) r with
+  | Some t => Some (nframes t, match tr t with Some c => Some (length (a_val c)) | None => None end)
+  | None => None
+  end.
+Lemma overlap_demo :
+  guarded inplace_guard v_keep (init_world specs1) ops_overlap = true /\
+  snd (run v_keep (init_world specs1) ops_overlap) = [ROk; ROk; ROk; ROk; ROk; ROk] /\
+  (let w := fst (run v_keep (init_world specs1) ops_overlap) in
+   reg_frames_cache w 3 = Some (4, Some 4) /\ reg_frames_cache w 4 = Some (5, Some 5) /\
+   reg_frames_cache w 5 = Some (8, Some 8) /\ cinvb w = true) /\
+  (let w := fst (run v_fix (init_world specs1) ops_overlap) in
+   reg_frames_cache w 3 = Some (4, None) /\ reg_frames_cache w 4 = Some (5, None) /\ cinvb w = true).
+Proof. vm_compute. repeat split; reflexivity. Qed.
